@@ -334,12 +334,18 @@ def enum_plans(ref_events, ref_py_writes, how):
     for k, (kind, tag, detail) in enumerate(ref_events):
         if kind == 'write':
             for p in prefixes(detail, how):
-                plans.append({'mode': 'fault', 'k': k, 'prefix': p})
+                f = {'mode': 'fault', 'k': k, 'prefix': p}
+                if p == (detail // 2 if detail > 1 else 0):
+                    f['rep'] = True
+                plans.append(f)
                 plans.append({'mode': 'crash', 'k': k, 'prefix': p})
             plans.append({'mode': 'fault', 'k': k, 'prefix': 0, 'sticky': True})
         else:
             for done in (False, True):
-                plans.append({'mode': 'fault', 'k': k, 'done': done})
+                f = {'mode': 'fault', 'k': k, 'done': done}
+                if done == (kind in ('create', 'open_append')):
+                    f['rep'] = True       # the variant that leaves more behind
+                plans.append(f)
                 plans.append({'mode': 'crash', 'k': k, 'done': done})
     for i in range(ref_py_writes):
         plans.append({'mode': 'pyfault', 'k': i})
@@ -350,6 +356,8 @@ def second_level(plan, run, how):
     """after the fault of `plan` fired: a kill at every later event of that run"""
     if plan['mode'] not in ('fault', 'pyfault') or plan.get('sticky') or not run.get('fired'):
         return []
+    if how != 'all' and plan['mode'] == 'fault' and not plan.get('rep'):
+        return []          # one representative variant per faulted primitive (the later events do not depend on it)
     ev = run['events']
     out = []
     for j in range(run['fired_at'], len(ev)):
@@ -492,6 +500,93 @@ def run_plan(d, rec, newrec, A, J, plan, before, bufsize, prefix, restart):
     return out
 
 
+def run_history_case(case):
+    """a whole run: several appends, each under its own plan (or none), the recorder carrying on
+    after every OSError; optionally a last append that is killed.  Before each attempt a fault-free
+    probe of the same record gives the chunking (the directory is put back afterwards)."""
+    d = tempfile.mkdtemp(prefix='c06h-')
+    global CTL
+    out = {}
+    try:
+        prefix = os.path.join(d, 'out')
+        params = R.WARCRecorderParams(compress=case['compress'], log=False, temp_dir=d)
+        CTL = Ctl()
+        rec = R.WARCRecorder(prefix, params)
+        A = rec._warc_filename
+        J = A + '-wpullinc'
+        state = case.get('archive_state', 'normal')
+        if state == 'absent':
+            os.remove(A)
+        elif state == 'empty':
+            with io.open(A, 'wb'):
+                pass
+        out['archive'] = os.path.basename(A)
+        out['journal'] = os.path.basename(J)
+        out['before'] = snapshot(d)
+        bufsize = case.get('bufsize')
+        attempts = []
+        for i, att in enumerate(case['attempts']):
+            newrec = make_record(200 + i, att['new'][0], att['new'][1])
+            rec.set_length_and_maybe_checksums(newrec)
+            pre = snapshot(d)
+            ctl = new_ctl(A, J, None, bufsize)
+            rec.write_record(newrec)
+            ctl.active = False
+            a = {'sizes': [e[2] for e in ctl.events if e[0] == 'write' and e[1] == 'A'],
+                 'n_events': len(ctl.events)}
+            old = bytes.fromhex(pre.get(out['archive'], ''))
+            a['data'] = snapshot(d)[out['archive']][len(old) * 2:]
+            restore(d, pre)
+            newrec.block_file.seek(0)
+            plan = att.get('plan')
+            if plan and 'kfrac' in plan:
+                # position given as a fraction of the primitives of this append (known only now);
+                # n_events itself = beyond the last primitive (never fires)
+                plan = dict(plan)
+                plan['k'] = min(a['n_events'], int(plan.pop('kfrac') * (a['n_events'] + 1)))
+                kind = ctl.events[plan['k']][0] if plan['k'] < a['n_events'] else None
+                if kind == 'write':
+                    plan['prefix'] = int(plan.pop('pfrac', 0) * ctl.events[plan['k']][2])
+                    plan.pop('done', None)
+                else:
+                    plan.pop('pfrac', None)
+                plan['kind'] = kind
+            a['plan'] = plan
+            if plan and plan['mode'] == 'crash':
+                pid = os.fork()
+                if pid == 0:
+                    try:
+                        new_ctl(A, J, plan, bufsize)
+                        try:
+                            rec.write_record(newrec)
+                        except OSError:
+                            pass
+                    finally:
+                        os._exit(0)
+                _, status = os.waitpid(pid, 0)
+                a['outcome'] = 'crashed' if os.waitstatus_to_exitcode(status) == 77 else 'not-crashed'
+                attempts.append(a)
+                break
+            ctl = new_ctl(A, J, plan, bufsize)
+            try:
+                rec.write_record(newrec)
+                a['outcome'] = 'completed'
+            except OSError:
+                a['outcome'] = 'oserror'
+            except Exception as e:
+                a['outcome'] = 'other:' + type(e).__name__
+            finally:
+                ctl.active = False
+            a['fired'] = ctl.fired
+            attempts.append(a)
+        out['attempts'] = attempts
+        out['after'] = snapshot(d)
+    finally:
+        CTL.active = False
+        shutil.rmtree(d, ignore_errors=True)
+    return out
+
+
 def refuses(rec):
     """the start-up check of a new run on the resulting directory"""
     try:
@@ -571,6 +666,8 @@ def main():
     for case in req['cases']:
         if case.get('kind') == 'startup':
             res.append(run_startup(case))
+        elif case.get('kind') == 'history':
+            res.append(run_history_case(case))
         elif case.get('kind') == 'gzsample':
             res.append(run_gzsample(case))
         else:
